@@ -2,6 +2,7 @@
 import DdsModel.TrapLoopsBlock
 import DdsModel.Proofs.TrapLoops
 import DdsModel.Proofs.AddrBlock
+import DdsModel.Theorems.C05
 namespace Dds.TrapLoops
 open Dds Dds.Trap
 open Dds.Addr (PRange)
@@ -720,5 +721,268 @@ theorem convBlocksT_spec {native : Color} {target : Unc.Channels} {p : BlkFn} {b
       have hol := h.out_len
       rw [hH] at hol
       exact convBlocksMainT_spec al h.shape h.psz h.rows h.re_le hH.symm hge hfit hwlt hel hol h.out_lt
+
+/-! ### the two block loops -/
+
+/-- how a decoder of `bc.rs` / `astc.rs` / `sub_sampled.rs` instantiates the block loops -/
+structure BlockCfg (img : Img) (native : Color) (p : BlkFn) (bpb size : Nat) : Prop where
+  prec : img.color.psz = native.psz
+  size : native.bpp = size
+  shape : p.Shape bpb
+  /-- a block row of native pixels fits the conversion buffer -/
+  buf : p.bx * (native.bpp * p.by_) ≤ BUFFER_BYTES
+
+theorem BlockCfg.native_psz {img : Img} {native : Color} {p : BlkFn} {bpb size : Nat}
+    (c : BlockCfg img native p bpb size) (ok : img.Ok) : native.psz = 1 ∨ native.psz = 2 ∨ native.psz = 4 :=
+  c.prec ▸ ok.psz
+
+theorem BlockCfg.color_eq {img : Img} {native : Color} {p : BlkFn} {bpb size : Nat}
+    (c : BlockCfg img native p bpb size) : (Color.mk img.color.ch native.psz) = img.color := by
+  rw [← c.prec]
+
+/-- the body of the loop of `for_each_block_untyped` for block line `k` -/
+theorem blockFullBodyT_spec {img : Img} {native : Color} {p : BlkFn} {bpb size : Nat} (al : Sl → Bool) (ok : img.Ok)
+    (c : BlockCfg img native p bpb size) {k : Nat} (hk : k < divCeil img.h p.by_) {line : Sl}
+    (hl : line.len = divCeil img.w p.bx * bpb) :
+    ∃ e, blockFullBodyT img native p bpb al k line = some (k + 1, e) ∧
+      Quiet (InRows 0 img.pitch img.h (img.w * img.color.bpp)) e := by
+  obtain ⟨hbx, hbxl, hby, hbyl, hbpb, h8, hbpbl⟩ := c.shape
+  have hkm : k * p.by_ < img.h := divCeil_lt_mul hby hk
+  have hh := ok.h_lt
+  have hw := ok.w_lt
+  generalize hpr : min p.by_ (img.h - k * p.by_) = pr
+  have hpr' : 0 < pr ∧ pr ≤ p.by_ ∧ k * p.by_ + pr ≤ img.h := by subst hpr; omega
+  have hmod : pr % 256 = pr := Nat.mod_eq_of_lt (by omega)
+  have hkk : k < img.h := by
+    have : k * 1 ≤ k * p.by_ := Nat.mul_le_mul_left _ hby
+    omega
+  have hrow := ok.getRowRangeT (y := k * p.by_) (k := pr) hpr'.1 hpr'.2.2
+  have hlen : (pr - 1) * img.pitch + img.w * img.color.bpp ≤ img.len := by
+    have := ok.row_le (y := k * p.by_ + (pr - 1)) (by omega)
+    rw [Nat.add_mul] at this; omega
+  have pre : ConvPre native img.color.ch p bpb line ⟨.out, k * p.by_ * img.pitch, (pr - 1) * img.pitch + img.w * img.color.bpp⟩
+      img.pitch ⟨img.w, 0, 0, pr⟩ :=
+    { shape := c.shape, psz := c.native_psz ok, buf := c.buf, wo_lt := hbx, w_ok := Or.inl ok.w_pos,
+      wsum_lt := by show img.w + 0 < U32B; omega, rows := hpr'.1, re_le := hpr'.2.1,
+      enc_len := by show line.len = divCeil (img.w + 0) p.bx * bpb; rw [Nat.add_zero]; exact hl,
+      out_len := by rw [c.color_eq]; show (pr - 0 - 1) * img.pitch + img.w * img.color.bpp ≤ _; simp,
+      out_lt := by have := ok.len_lt; show (pr - 1) * img.pitch + img.w * img.color.bpp < USIZE; omega }
+  obtain ⟨e, he, q⟩ := convBlocksT_spec al pre
+  rw [c.color_eq] at q
+  unfold blockFullBodyT
+  unfold U32B at hh hw
+  rw [ck32_of_lt (by unfold U32B; omega), bind_some', subU_of_le (by omega), bind_some']
+  simp only [hpr]
+  rw [bind_some', hrow, bind_some', hmod, dbgP_of hpr'.1, bind_some', he, bind_some',
+    ck32_of_lt (by unfold U32B; omega), bind_some', pure_some']
+  refine ⟨e, rfl, q.mono fun s hs hb => ?_⟩
+  rcases hs with hs | ⟨_, y, hy, h1, h2⟩
+  · rw [hs] at hb; cases hb
+  · simp only [Nat.sub_zero] at hy h1 h2
+    refine ⟨k * p.by_ + y, by omega, ?_, ?_⟩
+    · rw [Nat.add_mul]; omega
+    · rw [Nat.add_mul]; omega
+
+/-- **`for_each_block_untyped`**: no trap; trace = C06's `blockFull`; every write inside a row of the view -/
+theorem blockFullT_spec {img : Img} {native : Color} {p : BlkFn} {bpb size : Nat} (al : Sl → Bool) (ok : img.Ok)
+    (c : BlockCfg img native p bpb size) :
+    ∃ evs, blockFullT img native p bpb size al = some evs ∧ ios evs = Stream.blockFull p.bx p.by_ bpb img.w img.h ∧
+      Wr (InRows 0 img.pitch img.h (img.w * img.color.bpp)) evs := by
+  obtain ⟨hbx, hbxl, hby, hbyl, hbpb, h8, hbpbl⟩ := c.shape
+  have hwb : 0 < divCeil img.w p.bx := Stream.divCeil_pos ok.w_pos hbx
+  have hhb : 0 < divCeil img.h p.by_ := Stream.divCeil_pos ok.h_pos hby
+  have hwble : divCeil img.w p.bx ≤ img.w := divCeil_le_self hbx
+  have hbp : 0 < divCeil img.w p.bx * bpb := Nat.mul_pos hwb hbpb
+  have hbl : divCeil img.w p.bx * bpb < USIZE := by
+    have : divCeil img.w p.bx * bpb ≤ img.w * 256 := Nat.mul_le_mul hwble (by omega)
+    have := ok.w_lt; unfold U32B at this; unfold USIZE; omega
+  obtain ⟨lb, hnew, hbpl, inv⟩ := LB.newT_spec hbp hbl hhb
+  obtain ⟨e1, he1, i1, w1⟩ := whileLines_spec (blockFullBodyT img native p bpb al)
+    (Stream.linesInBuffer (divCeil img.w p.bx * bpb) (divCeil img.h p.by_)) (divCeil img.w p.bx * bpb)
+    (divCeil img.h p.by_) (fun k st => st = k) (InRows 0 img.pitch img.h (img.w * img.color.bpp))
+    (by
+      intro k st line hk hst _ hl
+      subst st
+      obtain ⟨e, he, q⟩ := blockFullBodyT_spec al ok c hk hl
+      exact ⟨k + 1, e, he, rfl, q⟩)
+    (divCeil img.h p.by_ + 1) lb 0 (divCeil img.h p.by_) 0 0 inv hbpl (by omega) (by omega) rfl
+  unfold blockFullT
+  rw [dbgP_of c.prec, bind_some', Color.bppT_eq _ (c.native_psz ok), bind_some', dbgP_of c.size, bind_some',
+    dbgP_of (by have := ok.w_pos; have := ok.h_pos; omega), bind_some', divCeilT_of_ne (by omega), bind_some',
+    divCeilT_of_ne (by omega), bind_some', ckU_of_lt hbl, bind_some', hnew, bind_some']
+  simp only []
+  rw [he1, bind_some', pure_some']
+  refine ⟨_, rfl, ?_, (Wr.io _ _).append w1⟩
+  rw [ios_append, i1, refillsFrom_stream hbp]
+  unfold Stream.blockFull
+  rw [if_neg (by have := ok.w_pos; have := ok.h_pos; omega), Stream.lineBufNew_eq hbp hhb]; rfl
+
+/-- the body of the loop of `for_each_block_rect_untyped` for the `k`-th block line read -/
+theorem blockRectBodyT_spec {img : Img} {native : Color} {p : BlkFn} {bpb size : Nat} (al : Sl → Bool) (ok : img.Ok)
+    (c : BlockCfg img native p bpb size) {W ox oy : Nat} (hx : ox + img.w ≤ W) (hW : W < U32B) (hoy : oy + img.h < U32B)
+    {k : Nat} {line : Sl} (hl : line.len = divCeil W p.bx * bpb)
+    (hk : k < (Addr.RectGeom.mk p.bx p.by_ ox oy img.w img.h).linesToRead) :
+    let g : Addr.RectGeom := ⟨p.bx, p.by_, ox, oy, img.w, img.h⟩
+    ∃ e, blockRectBodyT img oy native p bpb al (g.brStart * bpb) (g.brEnd * bpb) (g.widthOffset % 256)
+        (g.skipBefore + k, g.pixelRow k) line = some ((g.skipBefore + (k + 1), g.pixelRow (k + 1)), e) ∧
+      Quiet (InRows 0 img.pitch img.h (img.w * img.color.bpp)) e := by
+  intro g
+  have gbw : g.bw = p.bx := rfl
+  have gbh : g.bh = p.by_ := rfl
+  have gox : g.ox = ox := rfl
+  have goy : g.oy = oy := rfl
+  have gw : g.w = img.w := rfl
+  have gh : g.h = img.h := rfl
+  obtain ⟨hbx, hbxl, hby, hbyl, hbpb, h8, hbpbl⟩ := c.shape
+  obtain ⟨_, _, hpart⟩ := C05.rows_partition g hby ok.h_pos
+  obtain ⟨r1, r2, r3, r4, r5, r6, r7⟩ := hpart k hk
+  obtain ⟨b1, b2, b3, b4, b5, b6⟩ := C05.block_range_covers g hbx ok.w_pos
+  obtain ⟨o1, o2, _, _, _⟩ := C05.width_offset_ok g hbx ok.w_pos
+  have hbre : g.brEnd ≤ divCeil W p.bx := Stream.divCeil_mono hbx hx
+  have hdW : divCeil W p.bx ≤ W := divCeil_le_self hbx
+  -- unfold the geometry to the expressions of the code
+  have eRS : oy - (g.skipBefore + k) * p.by_ = g.rowStart k := rfl
+  have eRE : min (oy + img.h - (g.skipBefore + k) * p.by_) p.by_ = g.rowEnd k := rfl
+  have hm1 : g.rowStart k % 256 = g.rowStart k := Nat.mod_eq_of_lt (by omega)
+  have hm2 : g.rowEnd k % 256 = g.rowEnd k := Nat.mod_eq_of_lt (by omega)
+  have hm3 : g.widthOffset % 256 = g.widthOffset := Nat.mod_eq_of_lt (by show g.widthOffset < 256; omega)
+  have hprk : g.pixelRow k < img.h := by show g.pixelRow k < g.h; omega
+  have hrowle := ok.row_le (y := g.pixelRow k + (g.rowEnd k - g.rowStart k - 1)) (by show _ < g.h; omega)
+  rw [Nat.add_mul] at hrowle
+  have hll := ok.len_lt
+  have p1 : g.brStart * bpb ≤ g.brEnd * bpb := Nat.mul_le_mul_right _ (by omega)
+  have p2 : g.brEnd * bpb ≤ divCeil W p.bx * bpb := Nat.mul_le_mul_right _ hbre
+  have s1 : g.brEnd * bpb - g.brStart * bpb = (g.brEnd - g.brStart) * bpb := (Nat.sub_mul _ _ _).symm
+  have pre : ConvPre native img.color.ch p bpb ⟨line.buf, line.off + g.brStart * bpb, g.brEnd * bpb - g.brStart * bpb⟩
+      ⟨.out, 0 + g.pixelRow k * img.pitch, img.len - g.pixelRow k * img.pitch⟩ img.pitch
+      ⟨img.w, g.widthOffset, g.rowStart k, g.rowEnd k⟩ :=
+    { shape := c.shape, psz := c.native_psz ok, buf := c.buf, wo_lt := o1, w_ok := Or.inl ok.w_pos,
+      wsum_lt := by
+        show img.w + g.widthOffset < U32B
+        have : g.widthOffset ≤ ox := by show ox % p.bx ≤ ox; exact Nat.mod_le _ _
+        omega,
+      rows := r1, re_le := r2,
+      enc_len := by
+        show g.brEnd * bpb - g.brStart * bpb = divCeil (img.w + g.widthOffset) p.bx * bpb
+        rw [s1, b6, Nat.add_comm],
+      out_len := by
+        rw [c.color_eq]
+        show (g.rowEnd k - g.rowStart k - 1) * img.pitch + img.w * img.color.bpp ≤ img.len - g.pixelRow k * img.pitch
+        omega,
+      out_lt := by show img.len - g.pixelRow k * img.pitch < USIZE; omega }
+  obtain ⟨e, he, q⟩ := convBlocksT_spec al pre
+  rw [c.color_eq] at q
+  have hlt : (g.skipBefore + k) * p.by_ < U32B := by show _ < U32B; have : g.oy + g.h = oy + img.h := rfl; omega
+  have r7' : (g.skipBefore + k) * p.by_ < oy + img.h := r7
+  have hkl : g.skipBefore + k + 1 < U32B := by
+    have : (g.skipBefore + k) * 1 ≤ (g.skipBefore + k) * p.by_ := Nat.mul_le_mul_left _ hby
+    omega
+  have hpr1 : g.pixelRow k + (g.rowEnd k - g.rowStart k) < USIZE := by
+    rw [← r4]
+    have h32 : U32B < USIZE := by decide
+    have := ok.h_lt
+    have : g.pixelRow (k + 1) ≤ img.h := r6
+    omega
+  unfold blockRectBodyT
+  simp only []
+  rw [Sl.range_of ⟨p1, by omega⟩, bind_some', ck32_of_lt hlt, bind_some', ck32_of_lt hoy, bind_some', bind_some',
+    subU_of_le (by have : g.oy + g.h = oy + img.h := rfl; omega), bind_some', eRS,
+    dbgP_of (by omega), bind_some', dbgP_of (by have : g.oy + g.h = oy + img.h := rfl; omega), bind_some', eRE, hm1, hm2,
+    dbgP_of r1, bind_some', ckU_of_lt (by omega), bind_some', Sl.drop_of (by simp only [Img.data]; omega), bind_some']
+  simp only [Img.data, hm3]
+  rw [he, bind_some', ck32_of_lt hkl, bind_some', subU_of_le (by omega), bind_some',
+    ckU_of_lt hpr1, bind_some', pure_some']
+  refine ⟨e, by rw [r4, Nat.add_assoc], q.mono fun s hs hb => ?_⟩
+  rcases hs with hs | ⟨_, y, hy, h1, h2⟩
+  · rw [hs] at hb; cases hb
+  · simp only [Nat.zero_add] at hy h1 h2
+    refine ⟨g.pixelRow k + y, by show _ < g.h; omega, ?_, ?_⟩
+    · rw [Nat.add_mul]; omega
+    · rw [Nat.add_mul]; omega
+
+/-- **`for_each_block_rect_untyped`**: surface `W × H` whose encoded length passed `check_likely_overflow`, the image is
+the rect at `(ox, oy)` inside it -/
+theorem blockRectT_spec {img : Img} {native : Color} {p : BlkFn} {bpb size : Nat} (al : Sl → Bool) (ok : img.Ok)
+    (c : BlockCfg img native p bpb size) {W H ox oy : Nat} (hx : ox + img.w ≤ W) (hy : oy + img.h ≤ H) (hW : W < U32B)
+    (hH : H < U32B) (hsurf : divCeil W p.bx * divCeil H p.by_ * bpb ≤ I64MAX) :
+    ∃ evs, blockRectT img W H ox oy native p bpb al = some evs ∧
+      ios evs = Stream.blockRect p.bx p.by_ bpb W H oy img.h ∧
+      Wr (InRows 0 img.pitch img.h (img.w * img.color.bpp)) evs := by
+  obtain ⟨hbx, hbxl, hby, hbyl, hbpb, h8, hbpbl⟩ := c.shape
+  let g : Addr.RectGeom := ⟨p.bx, p.by_, ox, oy, img.w, img.h⟩
+  obtain ⟨a1, a2, a3⟩ := C05.block_lines_account g H hby hy
+  have a1' : oy / p.by_ ≤ divCeil (img.h + oy) p.by_ := a1
+  have a2' : divCeil (img.h + oy) p.by_ ≤ divCeil H p.by_ := a2
+  have hTR : 0 < divCeil (img.h + oy) p.by_ - oy / p.by_ := by
+    have := Stream.div_lt_divCeil (y := oy) (h := img.h) hby ok.h_pos
+    rw [Nat.add_comm] at this; omega
+  have eTR : divCeil (img.h + oy) p.by_ - oy / p.by_ = g.linesToRead := rfl
+  have eSB : oy / p.by_ = g.skipBefore := rfl
+  have hPL : 0 < divCeil W p.bx := Stream.divCeil_pos (by have := ok.w_pos; omega) hbx
+  have hPLle : divCeil W p.bx ≤ W := divCeil_le_self hbx
+  have hbp : 0 < divCeil W p.bx * bpb := Nat.mul_pos hPL hbpb
+  have hUS : 2 * I64MAX < USIZE := by decide
+  have hbl : divCeil W p.bx * bpb < USIZE := by
+    have : divCeil W p.bx * bpb ≤ W * 256 := Nat.mul_le_mul hPLle (by omega)
+    unfold U32B at hW; unfold USIZE; omega
+  -- the two skips
+  have hsk : ∀ n, n ≤ divCeil H p.by_ → divCeil W p.bx * n ≤ I64MAX ∧ divCeil W p.bx * n * bpb ≤ I64MAX := by
+    intro n hn
+    have h1 : divCeil W p.bx * n * bpb ≤ divCeil W p.bx * divCeil H p.by_ * bpb :=
+      Nat.mul_le_mul_right _ (Nat.mul_le_mul_left _ hn)
+    have h2 : divCeil W p.bx * n ≤ divCeil W p.bx * n * bpb := Nat.le_mul_of_pos_right _ hbpb
+    omega
+  obtain ⟨lb, hnew, hbpl, inv⟩ := LB.newT_spec hbp hbl hTR
+  rw [eTR] at hnew
+  obtain ⟨e1, he1, i1, w1⟩ := whileLines_spec
+    (blockRectBodyT img oy native p bpb al (g.brStart * bpb) (g.brEnd * bpb) (g.widthOffset % 256))
+    (Stream.linesInBuffer (divCeil W p.bx * bpb) g.linesToRead) (divCeil W p.bx * bpb) g.linesToRead
+    (fun k st => st = (g.skipBefore + k, g.pixelRow k)) (InRows 0 img.pitch img.h (img.w * img.color.bpp))
+    (by
+      intro k st line hk hst _ hl
+      subst st
+      obtain ⟨e, he, q⟩ := blockRectBodyT_spec al ok c hx hW (by omega) hl hk
+      exact ⟨_, e, he, rfl, q⟩)
+    (g.linesToRead + 1) lb 0 g.linesToRead (g.skipBefore, 0) 0 inv hbpl (by omega) (by omega) rfl
+  have hbre : g.brEnd ≤ divCeil W p.bx := Stream.divCeil_mono hbx hx
+  have hbrs : g.brStart ≤ g.brEnd := by
+    have := (C05.block_range_covers g hbx ok.w_pos).2.2.2.2.1; omega
+  have p1 : g.brStart * bpb ≤ g.brEnd * bpb := Nat.mul_le_mul_right _ hbrs
+  have p2 : g.brEnd * bpb ≤ divCeil W p.bx * bpb := Nat.mul_le_mul_right _ hbre
+  obtain ⟨k1, k2⟩ := hsk (oy / p.by_) (by omega)
+  obtain ⟨k3, k4⟩ := hsk (divCeil H p.by_ - oy / p.by_ - (divCeil (img.h + oy) p.by_ - oy / p.by_)) (by omega)
+  have hhl := ok.h_lt
+  have hwl := ok.w_lt
+  unfold blockRectT
+  rw [dbgP_of c.prec, bind_some', divCeilT_of_ne (by omega), bind_some', div_of_ne (by omega), bind_some',
+    ck32_of_lt (by omega), bind_some', divCeilT_of_ne (by omega), bind_some', subU_of_le a1', bind_some',
+    divCeilT_of_ne (by omega), bind_some', subU_of_le (by omega), bind_some', subU_of_le (by omega), bind_some',
+    ckU_of_lt hbl, bind_some', eTR, hnew, bind_some']
+  simp only []
+  rw [ckU_of_lt (by omega), bind_some', ckU_of_lt (by omega), bind_some', div_of_ne (by omega), bind_some',
+    ck32_of_lt (by omega), bind_some', divCeilT_of_ne (by omega), bind_some']
+  show ∃ evs, (do
+      let rs ← ckU (g.brStart * bpb)
+      let re ← ckU (g.brEnd * bpb)
+      let wo ← modT ox p.bx
+      let e1 ← whileLinesT (blockRectBodyT img oy native p bpb al rs re (wo % 256)) (g.linesToRead + 1) lb
+        (oy / p.by_, 0)
+      let s2 ← ckU (divCeil W p.bx * (divCeil H p.by_ - oy / p.by_ - g.linesToRead))
+      let s2' ← ckU (s2 * bpb)
+      pure ([Ev.io (.alloc (Stream.lineBufLen (divCeil W p.bx * bpb) g.linesToRead))] ++
+        [Ev.io (.skip (divCeil W p.bx * (oy / p.by_) * bpb))] ++ e1 ++ [Ev.io (.skip s2')])) = some evs ∧ _
+  rw [ckU_of_lt (by omega), bind_some', ckU_of_lt (by omega), bind_some', modT_of_ne (by omega), bind_some']
+  show ∃ evs, (do
+      let e1 ← whileLinesT (blockRectBodyT img oy native p bpb al (g.brStart * bpb) (g.brEnd * bpb)
+        (g.widthOffset % 256)) (g.linesToRead + 1) lb (g.skipBefore, 0)
+      let s2 ← ckU (divCeil W p.bx * (divCeil H p.by_ - oy / p.by_ - g.linesToRead))
+      let s2' ← ckU (s2 * bpb)
+      pure ([Ev.io (.alloc (Stream.lineBufLen (divCeil W p.bx * bpb) g.linesToRead))] ++
+        [Ev.io (.skip (divCeil W p.bx * (oy / p.by_) * bpb))] ++ e1 ++ [Ev.io (.skip s2')])) = some evs ∧ _
+  rw [he1, bind_some', ← eTR, ckU_of_lt (by omega), bind_some', ckU_of_lt (by omega), bind_some', pure_some']
+  refine ⟨_, rfl, ?_, (((Wr.io _ _).append (Wr.io _ _)).append w1).append (Wr.io _ _)⟩
+  have hTR' : 0 < g.linesToRead := hTR
+  simp only [ios_append, i1, ios, refillsFrom_stream hbp, Stream.blockRect, eTR, Stream.lineBufNew_eq hbp hTR',
+    List.cons_append, List.nil_append]
 
 end Dds.TrapLoops
